@@ -103,6 +103,19 @@ inductive WFField (env : Env) (bit : Nat) (f : FieldCfg) : Val → Val → Dict 
       (hproc : f.proc = .none) (hty : f.pytype = .int) (hfix : f.prefixLen = 0) (hw : 0 < f.length)
       (hn : n < 10 ^ f.length) :
       WFField env bit f (.int (Int.ofNat n)) (.int (Int.ofNat n)) []
+  /-- number given as text (the CSV tools): `int(t)` succeeds with a value that fits the field -/
+  | intText (t : Text) (n : Nat)
+      (hproc : f.proc = .none) (hty : f.pytype = .int) (hfix : f.prefixLen = 0) (hw : 0 < f.length)
+      (hne : t ≠ []) (hint : pyInt env.classes t = some (Int.ofNat n)) (hn : n < 10 ^ f.length) :
+      WFField env bit f (.str t) (.int (Int.ofNat n)) []
+  /-- date-time given as text (the CSV tools): the date parser accepts it; then as `date` -/
+  | dateText (t : Text) (d : DateTime) (bs : Bytes)
+      (hproc : f.proc = .none) (hty : f.pytype = .datetime) (hfix : f.prefixLen = 0)
+      (hne : t ≠ []) (hparse : env.parseDate t = some d)
+      (hlen : (strftime f.dateFmt d).length = f.length)
+      (henc : env.codec.encode (strftime f.dateFmt d) = some bs)
+      (hback : strptime env.classes f.dateFmt (strftime f.dateFmt d) = some d) :
+      WFField env bit f (.str t) (.dt d) []
   /-- date-time: its rendering has the field's width, is encodable, and parses back -/
   | date (d : DateTime) (bs : Bytes)
       (hproc : f.proc = .none) (hty : f.pytype = .datetime) (hfix : f.prefixLen = 0)
@@ -158,6 +171,8 @@ theorem wf_present {env : Env} {bit : Nat} {f : FieldCfg} {v exp : Val} {sub : D
   cases hw with
   | text t bs sub hproc hty henc hne hfix hvar hsub => cases t <;> simp_all [present]
   | int n => rfl
+  | intText t n hproc hty hfix hw hne => cases t <;> simp_all [present]
+  | dateText t d bs hproc hty hfix hne => cases t <;> simp_all [present]
   | date d bs => rfl
   | icc b sub hproc hty hne => cases b <;> simp_all [present]
 
@@ -224,6 +239,49 @@ theorem field_roundtrip {env : Env} (h : EnvOK env) {bit : Nat} {f : FieldCfg} {
         simp [transform, hproc]
       simp only [htr, stringToPyType, hty]
       rw [← hd, pyInt_fmtNat h.sane f.length n hw hn]
+      simp [Outcome.catchAs, Outcome.bind, derived, hproc, Dict.update]
+  | intText t n hproc hty hfix hw hne hint hn =>
+    have hd : fmtNat f.length n = digitText (toDigits 10 f.length n) := by
+      unfold fmtNat; rw [if_pos ⟨hw, hn⟩]; rfl
+    obtain ⟨bs, hbs⟩ := encode_digits h (toDigits 10 f.length n) (toDigits_lt (by decide) _ _)
+    have hlen : bs.length = f.length := by
+      have := Codec.encode_length hbs
+      simpa [digitText] using this
+    have hfit : fitLeft f.length (fmtNat f.length n) = fmtNat f.length n := by
+      unfold fitLeft
+      have hl : (fmtNat f.length n).length = f.length := fmtNat_length _ _ hw hn
+      rw [List.take_of_length_le (by omega), hl]; simp
+    have hicc : (f.proc == Proc.icc) = false := by simp [hproc]
+    refine ⟨bs, ?_, ?_⟩
+    · simp only [encodeField, pyTypeToString, hty, hint, fmtInt, Outcome.bind, hfix, if_true, hfit]
+      rw [hd]; exact encodeText_ok hbs
+    · unfold decodeField
+      rw [fieldLength_fixed env f hfix]
+      simp only [Outcome.bind, hfix, List.drop_zero, hicc, Bool.false_eq_true, if_false]
+      rw [← hlen, List.take_left' rfl]
+      unfold decodeTextField
+      rw [Codec.decode_encode h.lawful hbs]
+      have htr : transform f (digitText (toDigits 10 f.length n)) = digitText (toDigits 10 f.length n) := by
+        simp [transform, hproc]
+      simp only [htr, stringToPyType, hty]
+      rw [← hd, pyInt_fmtNat h.sane f.length n hw hn]
+      simp [Outcome.catchAs, Outcome.bind, derived, hproc, Dict.update]
+  | dateText t d bs hproc hty hfix hne hparse hlen henc hback =>
+    have hl : bs.length = f.length := by rw [Codec.encode_length henc, hlen]
+    have hfit : fitLeft f.length (strftime f.dateFmt d) = strftime f.dateFmt d := by
+      unfold fitLeft
+      rw [List.take_of_length_le (by omega), hlen]; simp
+    have hicc : (f.proc == Proc.icc) = false := by simp [hproc]
+    refine ⟨bs, ?_, ?_⟩
+    · simp only [encodeField, pyTypeToString, hty, hparse, Outcome.bind, hfix, if_true, hfit, encodeText_ok henc]
+    · unfold decodeField
+      rw [fieldLength_fixed env f hfix]
+      simp only [Outcome.bind, hfix, List.drop_zero, hicc, Bool.false_eq_true, if_false]
+      rw [← hl, List.take_left' rfl]
+      unfold decodeTextField
+      rw [Codec.decode_encode h.lawful henc]
+      have htr : transform f (strftime f.dateFmt d) = strftime f.dateFmt d := by simp [transform, hproc]
+      simp only [htr, stringToPyType, hty, hback]
       simp [Outcome.catchAs, Outcome.bind, derived, hproc, Dict.update]
   | date d bs hproc hty hfix hlen hne henc hback =>
     have hl : bs.length = f.length := by rw [Codec.encode_length henc, hlen]
